@@ -6,15 +6,22 @@ parser_util.transform_parse_tree); table: Emboss/Generated/FmtTable.lean (regene
 from module_ir.PRODUCTIONS and format_emb._formatters on every run); spec:
 Emboss/Spec/Fmt.lean; lemmas: Emboss/Lemmas/Fmt*.lean.
 
+The kernel evaluations over the regenerated tables are in Lemmas/FmtTableOK.lean,
+FmtNormalOK.lean, FmtSeparableOK.lean (re-elaborated only when a generated file changes).
+
 What is *not* a theorem here (decided by the correspondence + oracle on the real code,
-and labelled so in the manifest): fmt(fmt t) = fmt t in full, and that the formatted text
-re-tokenizes to the same tokens (needs tokenizer ∘ parser ∘ render as one object).
+and labelled so in the manifest): fmt(fmt t) = fmt t in full (`C11_format_fixed_point_partial`
+needs the parse tree of the output to be equivalent to the input tree), and that the
+formatted text re-tokenizes to the same tokens (needs tokenizer ∘ parser ∘ render as one
+object; `C11_tokens_preserved` + `C11_render_separable` are its character-level and
+token-class-level parts).
 -/
 import Emboss.Lemmas.FmtSanity
 import Emboss.Lemmas.FmtTableOK
 import Emboss.Lemmas.FmtNormalOK
 import Emboss.Lemmas.FmtSeparableOK
 import Emboss.Lemmas.FmtIdem
+import Emboss.Lemmas.FmtCommentOK
 namespace Emboss.Fmt
 open Emboss.Generated.FmtTable
 
@@ -85,8 +92,8 @@ theorem C11_tokens_preserved (iw : Nat) (t : Tree)
   obtain ⟨s, rfl⟩ := hk
   exact ⟨s, hv, by rw [← leaves_content_eq t hl]; exact hc hl⟩
 
-/-! Non-vacuity: the parse tree of "-- hi  \n# c\n" (a documentation line with trailing
-blanks followed by a comment line), built by looking the productions up in the live
+/-! Non-vacuity: the parse tree of "-- hi  \n# c \t\n" (a documentation line with trailing
+blanks followed by a comment line with trailing blanks), built by looking the productions up in the live
 table; it is well-formed, and the model formats it to "-- hi\n\n# c\n"?  No: the
 comment line belongs to the doc line's `eol`, so the text is "-- hi\n# c\n". -/
 
@@ -104,7 +111,7 @@ def exTree : Tree :=
           .tok "\"\\n\"" "\n".toList,
           .node (ix "comment-line*" ["comment-line", "comment-line*"]) [
             .node (ix "comment-line" ["Comment?", "\"\\n\""]) [
-              .node (ix "Comment?" ["Comment"]) [.tok "Comment" "# c".toList],
+              .node (ix "Comment?" ["Comment"]) [.tok "Comment" "# c \t".toList],
               .tok "\"\\n\"" "\n".toList],
             .node (ix "comment-line*" []) []]]],
       .node (ix "doc-line*" []) []],
@@ -115,7 +122,7 @@ def exTree : Tree :=
 example : wf formatters exTree = true ∧ layoutBlank exTree = true ∧
     rootSym formatters exTree = startSymbol ∧
     formatTree 3 exTree = some (.str "-- hi\n# c\n".toList) ∧
-    contentLeaves exTree = ["-- hi  ".toList, "# c".toList] := by
+    contentLeaves exTree = ["-- hi  ".toList, "# c \t".toList] := by
   decide +kernel
 
 /-! ## Token boundaries -/
@@ -168,30 +175,54 @@ only ever handed to `_doc` (which strips its trailing blanks before anything can
 them — the repair of finding `inline-doc-trailing-blanks-widen-column`). -/
 theorem C11_table_normal : tableNormal formatters = true := table_normal
 
+/-- Third table obligation, decided in the kernel over the whole regenerated registry: in
+every registered production the symbols `Comment` / `Comment?` stand exactly at the
+handler's comment position (`Handler.commentPos`: where the text ends a row, so its
+trailing blanks are stripped by the rendering and reach no column width that is used), and
+`Comment?` itself is produced by `_identity` from a comment or by `_empty_string`. -/
+theorem C11_table_comment : tableComment formatters = true := table_comment
+
 /-- **Formatting factors through a normal form of the parse tree**: two trees with the same
 productions and the same tokens, except for the *texts of layout tokens* (the source's
-indentation, line ends) and *trailing blanks of Documentation tokens* (`equivT`), are
-formatted to the same text — for every production, every indent width.  In particular the
-output never depends on how the source was indented or spaced.
+indentation, line ends) and *trailing blanks of Documentation and Comment tokens*
+(`equivC`) — exactly what the property statement lets the formatter change, apart from
+blank lines, which are tree structure — are formatted to the same text, for every
+production and every indent width.  In particular the output never depends on how the
+source was indented or spaced.
 
-Full statement wanted: also "… and trailing blanks of Comment tokens".  Missing: a
-relational version of the induction (values that differ in the trailing blanks of a
-row's last column until `_render_row_to_text` strips them); the oracle covers it. -/
+(`fold_equivC`: at every node the two folds give *related* values — rows and block headers
+whose last column may differ in trailing blanks; `_columnize` never uses the width of a
+last column, every other pass and `_render_row_to_text` strip or ignore it; uses
+`C11_table_ok`, `C11_table_normal`, `C11_table_comment`.)
+
+Still `_partial` with respect to idempotence: see the next theorem. -/
 theorem C11_format_factors_partial (iw : Nat) (t t' : Tree)
     (hw : wf formatters t = true) (hroot : rootSym formatters t = startSymbol)
-    (he : equivT t t' = true) :
+    (he : equivC t t' = true) :
     formatTree iw t' = formatTree iw t := by
-  obtain ⟨v, hv, _, _⟩ := fold_ok formatters iw C11_table_ok.1 t hw
-  obtain ⟨v', hv', hr⟩ := fold_equiv formatters iw C11_table_ok.1 C11_table_normal t t' hw he v hv
-  have : v = v' := by
-    cases t with
-    | node p cs => exact hr
-    | tok s x =>
-      simp only [rootSym] at hroot
-      subst hroot
-      simpa [Res, isLayoutSym, startSymbol, nlSym, docSym] using hr
-  unfold formatTree
-  rw [hv, hv', this]
+  obtain ⟨v, hv, hk, _⟩ := fold_ok formatters iw C11_table_ok.1 t hw
+  obtain ⟨v', hv', hr⟩ := fold_equivC formatters iw C11_table_ok.1 C11_table_normal C11_table_comment
+    t t' hw he v hv
+  rw [hroot, C11_table_ok.2.2] at hk
+  obtain ⟨s, rfl⟩ := hk
+  have hnc : isCommentSym startSymbol = false := by decide
+  cases t with
+  | node p cs =>
+    simp only [Res3, hroot, hnc, Bool.false_eq_true, if_false] at hr
+    cases v' <;> simp only [VRel] at hr
+    subst hr
+    unfold formatTree
+    rw [hv, hv']
+  | tok s0 x =>
+    simp only [rootSym] at hroot
+    subst hroot
+    have h1 : isLayoutSym startSymbol = false := by decide
+    have h2 : startSymbol ≠ docSym := by decide
+    have h3 : startSymbol ≠ commentSym := by decide
+    simp only [Res3, h1, h2, h3, Bool.false_eq_true, if_false] at hr
+    obtain ⟨y, hy, rfl⟩ := hr
+    unfold formatTree
+    rw [hv, hv', hy]
 
 /-- **Fixed point, partial**: if `t` is formatted to `out`, then every tree `t2` equivalent to
 `t` is formatted to `out` as well.  With `t2` := the parse tree of `out` this is
@@ -200,21 +231,22 @@ theorem C11_format_factors_partial (iw : Nat) (t t' : Tree)
 Full statement wanted: `∀ t, fmt (parse (fmt t)) = fmt t`.  Missing, decided by the
 oracle on the real code for every generated case: that the parse tree of the formatted
 text *is* equivalent to `t` — same token sequence (`C11_tokens_preserved` +
-`C11_render_separable` give it on the character level) **and** same comment-line /
-blank-line structure (the formatter's own normalisation of blank lines must be stable
-under re-parsing; needs tokenizer ∘ parser as one object), and Comment tokens without
-trailing blanks.  The harness counts on how many of its cases the hypothesis holds
+`C11_render_separable` give it on the character level and per terminal-class pair) **and**
+the same comment-line / blank-line structure (the formatter's own normalisation of blank
+lines must be stable under re-parsing; needs tokenizer ∘ parser as one object).  The
+harness counts on how many of its cases the hypothesis holds
 (`fixed_point_theorem_applies`: there idempotence is a consequence of this theorem and the
 byte-identical correspondence); for the others it is the oracle's verdict alone. -/
 theorem C11_format_fixed_point_partial (iw : Nat) (t t2 : Tree) (out : Str)
     (hw : wf formatters t = true) (hroot : rootSym formatters t = startSymbol)
-    (hfmt : formatTree iw t = some (.str out)) (he : equivT t t2 = true) :
+    (hfmt : formatTree iw t = some (.str out)) (he : equivC t t2 = true) :
     formatTree iw t2 = some (.str out) := by
   rw [C11_format_factors_partial iw t t2 hw hroot he]; exact hfmt
 
-/-! Non-vacuity: `exTree` is the parse tree of "-- hi  \n# c\n" and is formatted to
-"-- hi\n# c\n", whose parse tree is `exTree2` (documentation without the trailing blanks,
-other line-end texts); the two are equivalent, so `exTree2` is a fixed point. -/
+/-! Non-vacuity: `exTree` is the parse tree of "-- hi  \n# c \t\n" and is formatted to
+"-- hi\n# c\n", whose parse tree is `exTree2` (documentation and comment without the
+trailing blanks, other line-end texts); the two are equivalent, so `exTree2` is a fixed
+point. -/
 
 def exTree2 : Tree :=
   .node (ix "module" ["comment-line*", "doc-line*", "import-line*", "attribute-line*", "type-definition*"]) [
@@ -235,7 +267,7 @@ def exTree2 : Tree :=
     .node (ix "attribute-line*" []) [],
     .node (ix "type-definition*" []) []]
 
-example : equivT exTree exTree2 = true ∧ exTree ≠ exTree2 := by
+example : equivC exTree exTree2 = true ∧ exTree ≠ exTree2 := by
   constructor
   · decide +kernel
   · intro h; simp [exTree, exTree2] at h
